@@ -362,7 +362,7 @@ package lang
 //@ func (*Process).Fork [C11 C25]
 //@   scope functional
 //@   check none
-//@   requires p != nil && p.Config != nil
+//@   requires p != nil
 //@   at call (*Config).Copy#* assert arg0 == p.Config && (bit(flags, F_FUNCTION) || bit(flags, F_NEW_CONFIG))
 //@   at store Config#1 assert bit(flags, F_FUNCTION) && fresh(fork.Config) && fork.Config != nil
 //@   at store Config#1 assert imp(fork.Process != p, fork.Config.global == ite(p.Config.global == nil, p.Config, p.Config.global))
